@@ -2,7 +2,7 @@
    written from the property texts in properties.jsonl, not from the code.  The models in
    Model/Hlog.v and Model/Ilog.v are proved equal to these in Proofs/HlogFacts.v / IlogFacts.v. *)
 From Coq Require Import List NArith Bool Arith.
-From PV Require Import Base.Bytes Base.Lit.
+From PV Require Import Base.Bytes Base.Lit Base.PyFmt.
 Import ListNotations.
 Open Scope N_scope.
 
@@ -54,3 +54,54 @@ Definition field_line (f : text * nat * N) : text :=
 
 Definition nonzero_lines (l : list (text * nat * N)) : list text :=
   map field_line (filter (fun f => negb (snd f =? 0)) l).
+
+(* ------------------------------------------------------------------------------------------- *)
+(* C14.  "one line per 8-byte entry that is not all zero, in order, showing the entry's timestamp
+   (H:MM:SS, or dashes for 0xFFFF), its sequence number and its PTE exactly as stored; a trailing
+   partial entry is ignored.  The description is that of the first table entry, in header-file order,
+   whose wildcard pattern matches the PTE either as is or - for an error PTE with the reported flag -
+   with that flag cleared, with its parameters taken from the designated PTE bytes; 'Undefined' if none
+   matches, and the suffix ' - PEL entry created' exactly when the PTE is a reported error." *)
+(* consecutive complete 8-byte entries; whatever is left over (fewer than 8 bytes) is ignored *)
+Fixpoint entries8 (d : bytes) : list bytes :=
+  match d with
+  | b0 :: b1 :: b2 :: b3 :: b4 :: b5 :: b6 :: b7 :: rest => [b0; b1; b2; b3; b4; b5; b6; b7] :: entries8 rest
+  | _ => []
+  end.
+
+(* not all zero *)
+Definition nonzero (e : bytes) : bool := negb (forallb (fun b => b =? 0) e).
+
+(* "exactly as stored": two upper-case hex digits per stored byte *)
+Definition stored_hex (bs : bytes) : text := flat_map (fun b => [hexdigU (b / 16); hexdigU (b mod 16)]) bs.
+
+(* H:MM:SS of a second counter, hours space-padded to two columns; dashes for 0xFFFF *)
+Definition two_digits (n : N) : text := [48 + n / 10; 48 + n mod 10].
+Definition ts_text (t : N) : text :=
+  if t =? 0xFFFF then L "--------"
+  else (if t / 3600 <? 10 then [32; 48 + t / 3600] else two_digits (t / 3600))
+       ++ [58] ++ two_digits ((t / 60) mod 60) ++ [58] ++ two_digits (t mod 60).
+
+(* error PTE with the reported flag *)
+Definition reported_error (pte : N) : bool :=
+  (N.land pte 0xF0000000 =? 0xE0000000) && negb (N.land pte 0x00040000 =? 0).
+(* the same PTE with that flag cleared (only used when the flag is set) *)
+Definition clear_reported (pte : N) : N := pte - 0x00040000.
+
+(* wildcard patterns: one pattern character per hex digit, '*' for any digit, letters in either case *)
+Definition wild_char (p h : N) : Prop := p = 42 \/ upper_c p = upper_c h.
+Definition wild (pat digits : text) : Prop := Forall2 wild_char pat digits.
+Definition hex8 (pte : N) : text := hex_fixed hexdigU 8 pte.
+Definition hits (pat : text) (pte : N) : Prop :=
+  wild pat (hex8 pte) \/ (reported_error pte = true /\ wild pat (hex8 (clear_reported pte))).
+
+(* parameter p (1..4) designates the p-th of the four PTE bytes; other parameter numbers are dropped *)
+Definition param_values (params : list N) (pte_bytes : bytes) : list N :=
+  map (fun p => nth (N.to_nat p - 1) pte_bytes 0) (filter (fun p => (1 <=? p) && (p <=? 4)) params).
+
+(* the table message with its parameters filled in; the raw format when Python's % raises;
+   None when the format is outside the fragment Base/PyFmt.v covers *)
+Definition message (fmt : text) (values : list N) : option text :=
+  match pyfmt fmt values with FOk m => Some m | FError => Some fmt | FUnsupported => None end.
+
+Definition created_suffix : text := L " - PEL entry created".
